@@ -127,7 +127,7 @@ def build_harness(p, rundir, variant=None):
 def setup_all():
     todo = []
     for pid, p in props.PROPS.items():
-        for v in p.get("variants", [p.get("variant", "asan")]):
+        for v in p.get("variants", sorted({p.get("variant", "asan"), p.get("modes_variant", p.get("variant", "asan"))})):
             for s in harness_sources(p):
                 todo.append((s, v))
         for s, v in p.get("extra_objects", []):
@@ -415,11 +415,14 @@ def run_check(pid, tier, seed):
             od = os.path.join(sdir, "shard%02d" % k)
             shards.append(Shard(k, [binary, "--out", od, "--known", KNOWN] + extra_args, e, od))
         # extra modes (exhaustive drivers etc.)
+        mode_binary = binary
+        if cfg.get("modes") and p.get("modes_variant") and p["modes_variant"] != p.get("variant", "asan"):
+            mode_binary = build_harness(p, rundir, p["modes_variant"])
         for j, m in enumerate(cfg.get("modes", [])):
             e = dict(env)
             e["VERIF_SEED"] = str(seed)
             od = os.path.join(sdir, "mode%02d" % j)
-            shards.append(Shard(100 + j, [binary, "--out", od, "--known", KNOWN] + extra_args + ["--mode"] + m, e, od))
+            shards.append(Shard(100 + j, [mode_binary, "--out", od, "--known", KNOWN] + extra_args + ["--mode"] + m, e, od))
         timed_out = run_shards(shards, cfg.get("wall_limit", 1500 if tier == "quick" else 7200))
         if timed_out:
             inconclusive = True
